@@ -7,6 +7,7 @@ for every backend,
   * the failure counter equals the number of recorded, not yet expired failures         (exact)
   * a backend handed out by Select is up (not unhealthy, fewer than max_fails outstanding failures)
     and below its cap; "none" is answered only when no backend is in that condition      (down iff)
+  * the Unhealthy flags are what the last health-check pass found, and a pass changes nothing else
 and at the end (every request finished) all in-flight counters are zero, and so are the failure
 counters unless failures never expire within the run.
 -/
@@ -18,8 +19,8 @@ def allZeroN (l : List Nat) : Bool := l.all (· == 0)
 
 /-- is backend `h` available according to the bookkeeping the property prescribes:
 `outstanding` recorded-and-unexpired failures, `inflight` requests being forwarded -/
-def specAvail (c : Cfg) (outstanding inflight : List Nat) (h : Nat) : Bool :=
-  decide (h < c.nHosts) && !(c.unhealthy.getD h false) && decide (outstanding.getD h 0 < c.maxFails) &&
+def specAvail (c : Cfg) (unh : List Bool) (outstanding inflight : List Nat) (h : Nat) : Bool :=
+  decide (h < c.nHosts) && !(unh.getD h false) && decide (outstanding.getD h 0 < c.maxFails) &&
     !(decide (c.maxConns > 0) && decide (inflight.getD h 0 ≥ c.maxConns))
 
 /-- failures outstanding after the action labelled `l` -/
@@ -30,28 +31,36 @@ def outstandingAfter (ex : Expiry) (out : List Nat) : Label → List Nat
 
 def natsToInts (l : List Nat) : List Int := l.map Int.ofNat
 
-/-- check one snapshot; `prevIn` = in-flight numbers before the action (what Select saw) -/
-def checkSnap (c : Cfg) (out prevIn : List Nat) (s : Snap) : Option String :=
+/-- the health flags after the action labelled `l` -/
+def unhealthyAfter (unh : List Bool) : Label → List Bool
+  | .hc flags => flags
+  | _ => unh
+
+/-- check one snapshot; `prevIn` = in-flight numbers before the action (what Select saw),
+`unh` = the health flags according to the health checks so far -/
+def checkSnap (c : Cfg) (unh : List Bool) (out prevIn : List Nat) (s : Snap) : Option String :=
   if s.conns != natsToInts s.inflight then some "bad:conns-inexact:in-flight counter differs from the number of requests being forwarded"
   else if c.maxConns > 0 && s.inflight.any (fun n => decide (n > c.maxConns)) then some "bad:max-conns-exceeded:more simultaneous forwards than max_conns"
   else if s.fails != natsToInts out then some "bad:fails-inexact:failure counter differs from the number of unexpired failures"
+  else if s.unhealthy != unh then some "bad:down-wrong:the Unhealthy flags are not the outcome of the last health check"
   else match s.label with
-    | .sel h => if specAvail c out prevIn h then none else some "bad:selected-unavailable:Select handed out a backend that is down or at its cap"
-    | .none => if (List.range c.nHosts).any (specAvail c out prevIn) then some "bad:down-mismatch:no backend handed out although one is up and below its cap" else none
+    | .sel h => if specAvail c unh out prevIn h then none else some "bad:selected-unavailable:Select handed out a backend that is down or at its cap"
+    | .none => if (List.range c.nHosts).any (specAvail c unh out prevIn) then some "bad:down-mismatch:no backend handed out although one is up and below its cap" else none
     | .final =>
       if allZeroN s.inflight && !allZeroI s.conns then some "bad:conns-not-zero:in-flight counter not back to zero at quiescence"
       else none
     | _ => none
 
-def verdictGo (c : Cfg) (ex : Expiry) : List Nat → List Nat → List Snap → String
-  | _, _, [] => "ok"
-  | out, prevIn, s :: rest =>
+def verdictGo (c : Cfg) (ex : Expiry) : List Bool → List Nat → List Nat → List Snap → String
+  | _, _, _, [] => "ok"
+  | unh, out, prevIn, s :: rest =>
     let out' := outstandingAfter ex out s.label
-    match checkSnap c out' prevIn s with
+    let unh' := unhealthyAfter unh s.label
+    match checkSnap c unh' out' prevIn s with
     | some bad => bad
-    | none => verdictGo c ex out' s.inflight rest
+    | none => verdictGo c ex unh' out' s.inflight rest
 
 def verdict (c : Cfg) (ex : Expiry) (snaps : List Snap) : String :=
-  verdictGo c ex (List.replicate c.nHosts 0) (List.replicate c.nHosts 0) snaps
+  verdictGo c ex c.unhealthy (List.replicate c.nHosts 0) (List.replicate c.nHosts 0) snaps
 
 end Casket.AccountingSpec
